@@ -249,7 +249,14 @@ func randomValue(r *rand.Rand, allowNul bool) []byte {
 			}
 		}
 		if allowNul && n > 3 && r.Intn(2) == 0 {
-			v[1+r.Intn(n-2)] = 0
+			// argument separators; an empty argument gives two in a row (grep "" file), several give a run
+			for k := 1 + r.Intn(3); k > 0; k-- {
+				at := 1 + r.Intn(n-2)
+				for run := 1 + r.Intn(3); run > 0 && at < n-1; run-- {
+					v[at] = 0
+					at++
+				}
+			}
 		}
 		if v[0] == '"' || v[0] == '\'' || v[n-1] == '"' || v[n-1] == '\'' || v[n-1] == '\\' {
 			continue
